@@ -16,6 +16,51 @@ ASSUME_CLUSTER = ['TCP semantics of SimNet: per-connection FIFO, no duplication/
                   'seeded sampling: a clean batch is evidence, not proof']
 
 
+def quiet_round(w, apply, period=0.05, drain_iters=24):
+    """One round of the quiet period: every node ticks once (timely ticks), fork children
+    finish, pending connects resolve, and the network drains: bytes are delivered and the
+    readers are ticked promptly until the pipes are empty (a reader that is woken by
+    incoming data, as with a real poll loop; socket capacity does not limit bandwidth)."""
+    first = True
+    for h in w.hosts:
+        if h.node is not None:
+            apply([period if first else 0.0, 'tick', h.idx])
+            first = False
+    for h in w.hosts:
+        while h.forkemu.pending_children():
+            apply([0.0, 'child', h.idx])
+    for cid in list(w.net.pending):
+        c = w.net.pending.get(cid)
+        if c is None:
+            continue
+        apply([0.0, 'conn', cid, 'ok' if (c.shost is not None and (c.shost, c.port) in w.net.listeners) else 'refuse'])
+    for it in range(drain_iters):
+        live = w.net.live_pipes()
+        wake = []
+        for pid in live:
+            p = w.net.pipes.get(pid)
+            if p is not None and p.reader.host not in wake:
+                wake.append(p.reader.host)
+            apply([0.0, 'dlv', pid, 0])
+        # a node whose connection still has bytes in its userspace write buffer is woken as soon
+        # as its socket is writable again
+        for h in w.hosts:
+            n = h.node
+            if n is None or h.idx in wake:
+                continue
+            tr = n._SyncObj__transport
+            for c in tr._connections.values():
+                if c.getSendBufferSize() > 0:
+                    wake.append(h.idx)
+                    break
+        if not wake:
+            break
+        if it >= 1 or not live:
+            for i in sorted(wake):
+                if w.hosts[i].node is not None:
+                    apply([0.0, 'tick', i])
+
+
 def make_run(spec):
     def run(seed, tier, cfg=None, events=None):
         return run_cluster(seed, spec, cfg=cfg, events=events, tier=tier)
